@@ -85,7 +85,15 @@ structure DmaInfo where
   srcDelta : Int
   dstTid : Nat
   dstDelta : Int
+  valid : Nat := 0       -- bytes of real tensor data in the transfer (0 = all): a feature-map DMA is rounded up to 16 bytes
 deriving Repr, Inhabited
+
+/-- number of meaningful bytes a DMA moves; the rest (up to the 16-byte rounded length) is padding
+    inside both tensors' own allocations -/
+def DmaInfo.validLen (i : DmaInfo) (len : Nat) : Nat := if i.valid = 0 ∨ i.valid > len then len else i.valid
+
+/-- tag of padding bytes a rounded-up DMA drags along: never equal to what a reader expects -/
+def junkTid : Nat := 4294967295
 
 inductive Info where
   | block (i : OpInfo)
@@ -209,7 +217,7 @@ def blockReads (e : Env) (b : BlockOp) (i : OpInfo) : List Read :=
     constReads e "WEIGHTS" b.weights i.wsrc ++ constReads e "SCALES" b.scales i.ssrc ++ lutRead e b i
 
 def dmaReads (e : Env) (d : DmaOp) (i : DmaInfo) : List Read :=
-  if d.src.region = e.constRegion then [] else [⟨"DMA-SRC", d.src.region, i.srcTid, [⟨d.src.addr, d.src.len, i.srcDelta⟩], 0⟩]
+  if d.src.region = e.constRegion then [] else [⟨"DMA-SRC", d.src.region, i.srcTid, [⟨d.src.addr, i.validLen d.src.len, i.srcDelta⟩], 0⟩]
 
 def readErr (m : Memory) (idx : Nat) (r : Read) : List String :=
   match readPieces m r.region r.tid r.pieces r.shift with
@@ -222,7 +230,8 @@ def stepBlock (e : Env) (m : Memory) (idx : Nat) (b : BlockOp) (i : OpInfo) : Li
 
 def stepDma (e : Env) (m : Memory) (idx : Nat) (d : DmaOp) (i : DmaInfo) : List String × Memory :=
   ((dmaReads e d i).flatMap (readErr m idx),
-   writePieces m d.dst.region i.dstTid [⟨d.dst.addr, d.dst.len, i.dstDelta⟩])
+   writePieces (writePieces m d.dst.region junkTid [⟨d.dst.addr, d.dst.len, 0⟩])
+     d.dst.region i.dstTid [⟨d.dst.addr, i.validLen d.dst.len, i.dstDelta⟩])
 
 /-- one step of the tagged-memory machine: the errors of its reads (against the memory *before* the
     step) and the memory after its write -/
